@@ -41,7 +41,7 @@ func (c *Ctx) allObligations() map[string][]Obligation {
 		def := registry[id]
 		rep := &Report{Property: id}
 		for _, rd := range def.Rules {
-			if strings.HasSuffix(rd.ID, "P") || strings.HasSuffix(rd.ID, "S") || strings.HasSuffix(rd.ID, "G") || strings.HasSuffix(rd.ID, "W") {
+			if strings.HasSuffix(rd.ID, "P") || strings.HasSuffix(rd.ID, "S") || strings.HasSuffix(rd.ID, "G") || strings.HasSuffix(rd.ID, "W") || strings.HasSuffix(rd.ID, "O") {
 				continue
 			}
 			rep.cur = rd.ID
